@@ -154,7 +154,7 @@ class Builder(object):
 
     def new_id(self):
         self.n += 1
-        return "e%d" % self.n
+        return ("e%d", "E%d", "Layer_%d")[self.n % 3] % self.n  # (names are case-sensitive)
 
     def node(self, tag, attrs=None, children=None):
         n = {"tag": tag, "id": self.new_id(), "attrs": attrs or {}, "children": children or [], "cls": None}
